@@ -199,7 +199,7 @@ func c07Alphabet(contacts []string) []mOp {
 func (e *mEnv) seedVariant2(v int) []byte { return e.seedVariant(v) }
 
 // c07Explore: BFS over the reference state; in every reached state every operation is applied on the real store.
-func c07Explore(rep *vrep.Report, t *testing.T, contacts []string, depth int) {
+func c07Explore(rep *vrep.Report, t *testing.T, contacts []string, depth int, everyHistory bool) {
 	alpha := append(c07Alphabet(contacts), mOp{"enqueue", "SELF", 1}, mOp{"received", "SELF", 1}, mOp{"block", "SELF", 0}, mOp{"sent", "SELF", 0}, mOp{"accept", "SELF", 0}, mOp{"discard", "SELF", 0}, mOp{"unblock", "SELF", 0})
 	type node struct {
 		hist []mOp
@@ -295,6 +295,11 @@ func c07Explore(rep *vrep.Report, t *testing.T, contacts []string, depth int) {
 							viol("writer-differs-from-lifecycle", fmt.Sprintf("after %v the writer reports %s, reference lifecycle says %s", op, got, want), &op)
 						}
 						key := ref.canon()
+						if everyHistory {
+							// no merging of histories that reach the same reference state: the real store is driven
+							// through every sequence of accepted operations up to the depth
+							key = fmt.Sprint(append(append([]mOp{}, n.hist...), op))
+						}
 						mu.Lock()
 						if !seen[key] {
 							seen[key] = true
@@ -322,7 +327,7 @@ func c07Explore(rep *vrep.Report, t *testing.T, contacts []string, depth int) {
 	rep.AddStates(states)
 	rep.AddTransitions(transitions)
 	rep.AddTraces(transitions)
-	rep.Sample(map[string]interface{}{"contacts": contacts, "depth": depth, "reference_states": states, "transitions": transitions, "deepest_level": maxDepth, "open_frontier_at_depth": len(frontier)})
+	rep.Sample(map[string]interface{}{"contacts": contacts, "depth": depth, "every_history": everyHistory, "reference_states": states, "transitions": transitions, "deepest_level": maxDepth, "open_frontier_at_depth": len(frontier)})
 }
 
 func c07Malformed(rep *vrep.Report, w *vWorld, env *mEnv, gc *GroupContext, hist []mOp) {
@@ -393,6 +398,11 @@ func TestVerifC07(t *testing.T) {
 	if vrep.Thorough() {
 		d1, d2 = 6, 3
 	}
-	c07Explore(rep, t, []string{"X"}, d1)
-	c07Explore(rep, t, []string{"X", "Y"}, d2)
+	c07Explore(rep, t, []string{"X"}, d1, false)
+	c07Explore(rep, t, []string{"X", "Y"}, d2, false)
+	if vrep.Thorough() {
+		c07Explore(rep, t, []string{"X"}, 6, true)
+	} else {
+		c07Explore(rep, t, []string{"X"}, 3, true)
+	}
 }
